@@ -56,6 +56,14 @@ impl<T> Help for TypeResult<T> {
     }
 }
 
+/// The members of a blob or enum in the order they are written (they arrive in a HashMap and the
+/// first error reported for them must not depend on its iteration order).
+fn in_source_order<T>(members: &HashMap<String, (Span, T)>) -> Vec<(&String, &(Span, T))> {
+    let mut members: Vec<_> = members.iter().collect();
+    members.sort_by_key(|(_, (span, _))| (span.line_start, span.col_start));
+    members
+}
+
 macro_rules! err_type_error {
     ($self:expr, $span:expr, $kind:expr, $( $msg:expr ),+ ) => {
         Err(vec![type_error!($self, $span, $kind, $($msg),*)])
@@ -568,7 +576,7 @@ impl TypeChecker {
                     seen.insert(v.clone(), ty);
                 }
                 let num_vars = seen.len();
-                for (k, (k_span, t)) in variants.iter() {
+                for (k, (k_span, t)) in in_source_order(variants) {
                     resolved_variants.insert(
                         k.clone(),
                         (*k_span, self.inner_resolve_type(ctx, t, &mut seen)?),
@@ -609,7 +617,7 @@ impl TypeChecker {
                     seen.insert(v.clone(), ty);
                 }
                 let num_vars = seen.len();
-                for (k, (k_span, t)) in fields.iter() {
+                for (k, (k_span, t)) in in_source_order(fields) {
                     resolved_fields.insert(
                         k.clone(),
                         (*k_span, self.inner_resolve_type(ctx, t, &mut seen)?),
